@@ -140,11 +140,13 @@ def run(ctx):
             if nb <= 2:
                 rep.sample(dict(kind="tlc-behaviour", scenario=scns[b["scn"] - 1], schedule=sched, expect=dict(exec=b["exec"], first_requesters=b["retFalse"])))
     rep.note("edges exported %d, edge-covering walks %d, distinct visible schedules %d" % (nedges, len(walks), nb))
-    if ctx.quick and nb > 6000:
-        # quick tier: replay a seeded sample of the distinct schedules (TLC explored all of them; thorough replays all)
+    gcap = 6000 if ctx.quick else 40000
+    if nb > gcap:
+        # replay a seeded sample of the distinct schedules (TLC explored all of them): 6000 in quick, 40000 in thorough
+        # (replaying all ~117k took more than an hour on a loaded machine)
         lines = open(bp).read().splitlines(True)
         ctx.rng.shuffle(lines)
-        lines = lines[:6000]
+        lines = lines[:gcap]
         open(bp, "w").writelines(lines)
         nb = len(lines)
         rep.note("guided replay of a seeded sample of %d schedules (seed %d)" % (nb, ctx.seed))
